@@ -1,4 +1,5 @@
 import Drv.C05
+import Drv.C14
 /- Line protocol driver: one command per line in, one line out. -/
 open Drv
 
@@ -7,6 +8,7 @@ def dispatch (line : String) : String :=
   | [] => "bad-op"
   | "c05.read" :: args => C05.cmdRead args
   | "c05.compress" :: args => C05.cmdCompress args
+  | "c14.run" :: args => C14.cmdRun args
   | "ping" :: _ => "pong"
   | _ => "bad-op"
 
